@@ -689,4 +689,116 @@ theorem cacheFileName_static_inj (dir p1 p2 d1 d2 : Bytes) (c1 c2 : Coding)
   exact ⟨List.reverse_inj.mp h2, List.reverse_inj.mp h1, rfl⟩
 
 
+/-! ### listed tokens occur literally in the header -/
+
+theorem splitOn_spec (sep : UInt8) : ∀ (s : Bytes), ∃ p ps, splitOn sep s = p :: ps ∧ p <+: s ∧ ∀ q ∈ ps, q <:+: s := by
+  intro s
+  induction s with
+  | nil => exact ⟨[], [], by simp [splitOn], List.prefix_refl _, by simp⟩
+  | cons x xs ih =>
+    obtain ⟨p, ps, hs, hp, hps⟩ := ih
+    rw [splitOn, hs]
+    by_cases hx : x = sep
+    · refine ⟨[], p :: ps, by simp [hx], List.nil_prefix, ?_⟩
+      intro q hq
+      rcases List.mem_cons.mp hq with rfl | hq
+      · exact hp.isInfix.trans (List.suffix_cons _ _).isInfix
+      · exact (hps q hq).trans (List.suffix_cons _ _).isInfix
+    · refine ⟨x :: p, ps, by simp [hx], ?_, ?_⟩
+      · exact List.cons_prefix_cons.mpr ⟨rfl, hp⟩
+      · intro q hq
+        exact (hps q hq).trans (List.suffix_cons _ _).isInfix
+
+theorem splitOn_mem_infix (sep : UInt8) (s t : Bytes) (ht : t ∈ splitOn sep s) : t <:+: s := by
+  obtain ⟨p, ps, hs, hp, hps⟩ := splitOn_spec sep s
+  rw [hs] at ht
+  rcases List.mem_cons.mp ht with rfl | ht
+  · exact hp.isInfix
+  · exact hps t ht
+
+theorem splitOn_mem_nosep' (sep : UInt8) : ∀ (s t : Bytes), t ∈ splitOn sep s → sep ∉ t := by
+  intro s
+  induction s with
+  | nil => intro t ht; simp [splitOn] at ht; subst ht; simp
+  | cons x xs ih =>
+    intro t ht
+    rw [splitOn] at ht
+    cases hs : splitOn sep xs with
+    | nil => exact absurd hs (splitOn_ne_nil' _ _)
+    | cons p ps =>
+      rw [hs] at ht
+      have hp := ih p (by simp [hs])
+      have hps : ∀ q ∈ ps, sep ∉ q := fun q hq => ih q (by simp [hs, hq])
+      by_cases hx : x = sep
+      · simp only [hx, ↓reduceIte, List.mem_cons] at ht
+        rcases ht with rfl | rfl | ht
+        · simp
+        · exact hp
+        · exact hps t ht
+      · simp only [hx, ↓reduceIte, List.mem_cons] at ht
+        rcases ht with rfl | ht
+        · intro hmem
+          rcases List.mem_cons.mp hmem with h | h
+          · exact hx h.symm
+          · exact hp h
+        · exact hps t ht
+
+def tabToSp (b : UInt8) : UInt8 := if b = ht then sp else b
+
+/-- an infix of `map tabToSp s` that contains no space is an infix of `s` itself -/
+theorem infix_map_tabToSp (s t : Bytes) (hns : sp ∉ t) (h : t <:+: s.map tabToSp) : t <:+: s := by
+  obtain ⟨a, b, hab⟩ := h
+  have h1 : s.map tabToSp = (a ++ t) ++ b := by rw [hab]
+  obtain ⟨l1, l2, hs, hl1, _⟩ := List.map_eq_append_iff.mp h1
+  obtain ⟨l3, l4, hs', _, hl4⟩ := List.map_eq_append_iff.mp hl1
+  have : l4 = t := by
+    rw [← hl4]
+    have hall : ∀ x ∈ l4, tabToSp x = x := by
+      intro x hx
+      have hx' : tabToSp x ∈ t := by rw [← hl4]; exact List.mem_map_of_mem hx
+      unfold tabToSp at hx' ⊢
+      split
+      · rename_i hxt
+        simp [hxt] at hx'
+        exact absurd hx' hns
+      · rfl
+    calc l4 = l4.map id := by simp
+      _ = l4.map tabToSp := by
+        apply List.map_congr_left
+        intro x hx
+        exact (hall x hx).symm
+  subst this
+  exact ⟨l3, l2, by rw [hs, hs']⟩
+
+theorem markLast_token_mem : ∀ (toks : List Bytes) (q : Bool) (e : Entry), e ∈ markLast toks q → e.token ∈ toks := by
+  intro toks
+  induction toks with
+  | nil => intro q e he; simp [markLast] at he
+  | cons t ts ih =>
+    intro q e he
+    cases ts with
+    | nil => simp [markLast] at he; subst he; simp
+    | cons t2 ts2 =>
+      simp only [markLast, List.mem_cons] at he
+      rcases he with rfl | he
+      · simp
+      · have := ih q e (by simpa [List.mem_cons] using he)
+        exact List.mem_cons_of_mem _ this
+
+/-- every listed token that contains no white space occurs literally in the header value -/
+theorem entries_token_infix (hdr : Bytes) (e : Entry) (he : e ∈ entries hdr) : e.token <:+: hdr := by
+  unfold entries at he
+  obtain ⟨el, hel, he⟩ := List.mem_flatMap.mp he
+  unfold parseElement at he
+  have htok := markLast_token_mem _ _ _ he
+  obtain ⟨htok, _⟩ := List.mem_filter.mp htok
+  have hns : sp ∉ e.token := splitOn_mem_nosep' sp _ _ htok
+  have h1 : e.token <:+: (el.takeWhile (· ≠ semi)).map (fun b => if b = B.ht then sp else b) := splitOn_mem_infix sp _ _ htok
+  have h2 : e.token <:+: el.takeWhile (· ≠ semi) := infix_map_tabToSp _ _ hns h1
+  have h3 : el.takeWhile (· ≠ semi) <:+: el := (List.takeWhile_prefix _).isInfix
+  have h4 : el <:+: cstr hdr := splitOn_mem_infix comma _ _ hel
+  have h5 : cstr hdr <:+: hdr := (List.takeWhile_prefix _).isInfix
+  exact ((h2.trans h3).trans h4).trans h5
+
+
 end LtVerif.Deflate
